@@ -3,7 +3,7 @@ argument, result) which of Pyro5's own layers surround the third-party library c
 `default=` on the dump side, `convert_obj_into_marshallable`, `object_hook=` / `ext_hook=` on the
 load side, `recreate_classes`; plus the msgpack ExtType codes used by `default` and by `ext_hook`."""
 import ast
-from tools.gen.gen import generator, parse, find_class, find_func, need, GenError, HEADER, cN, cbool, ast_sha
+from tools.gen.gen import generator, parse, find_class, find_func, need, GenError, HEADER, cN, cbool, ast_sha, tree_module, try_sha
 
 CLASSES = [("serpent", "SerpentSerializer"), ("marshal", "MarshalSerializer"), ("json", "JsonSerializer"),
            ("msgpack", "MsgpackSerializer")]
@@ -128,8 +128,11 @@ def ext_codes_hook(func, shapes):
     return out
 
 
-@generator("GenSerializers", "Pyro5/serializers.py")
-def gen_serializers(tree):
+SHORTS = ("complex", "long", "datetime", "date")
+
+
+def _ast_read(tree):
+    """first-generation reader: the hook table, ext codes and codec shapes from the source text of the four classes"""
     mod, _ = parse(tree, "Pyro5/serializers.py")
     table, shas, ids = {}, {}, {}
     for sname, cname in CLASSES:
@@ -149,7 +152,6 @@ def gen_serializers(tree):
         for p, enc, dec, conv, rec in (("arg", kdc, klc, conv_arg, rec_arg), ("kwarg", kdc, klc, conv_kw, rec_kw),
                                        ("result", kd, kl, conv_res, rec_res)):
             table[(sname, p)] = (bool(enc.get("default")), conv, bool(dec.get("object_hook")), bool(dec.get("ext_hook")), rec)
-    mp = find_class(mod, "MsgpackSerializer")
     dshapes, hshapes = {}, {}
     dcodes = ext_codes_default(find_func(mod, "default", "MsgpackSerializer"), dshapes)
     hcodes = ext_codes_hook(find_func(mod, "ext_hook", "MsgpackSerializer"), hshapes)
@@ -157,32 +159,188 @@ def gen_serializers(tree):
     want_h = {"complex": "complex", "int": "long", "datetime.datetime.fromtimestamp": "datetime", "datetime.date.fromordinal": "date"}
     need(set(dcodes) == set(want_d), "default(): ExtType encodings are for %s, expected %s" % (sorted(dcodes), sorted(want_d)))
     need(set(hcodes.values()) == set(want_h) and len(hcodes) == 4, "ext_hook(): constructors %s, expected %s" % (sorted(hcodes.values()), sorted(want_h)))
+    enc = {want_d[k]: v for k, v in dshapes.items()}
+    dec = {want_h[hcodes[c]]: v for c, v in hshapes.items()}
+    return {"table": table, "ids": ids, "ext": {want_d[k]: v for k, v in dcodes.items()},
+            "hook": {want_h[v]: k for k, v in hcodes.items()},
+            "known": {k: enc.get(k) == KNOWN_ENCODERS[k] and dec.get(k) == KNOWN_DECODERS[k] for k in SHORTS},
+            "shapes": {k: "default() sends %s ; ext_hook() does %s" % (enc.get(k), dec.get(k)) for k in SHORTS}, "ast_sha": shas}
+
+
+def ast_shas(tree):
+    try:
+        mod, _ = parse(tree, "Pyro5/serializers.py")
+        return {"%s.%s" % (c, m): try_sha(lambda c=c, m=m: find_func(mod, m, c)) for _, c in CLASSES
+                for m in ("dumps", "dumpsCall", "loads", "loadsCall")}
+    except GenError:
+        return {}
+
+
+class _LibStub(object):
+    """stands in for serpent / marshal / json / msgpack inside Pyro5.serializers while one method is probed: records the
+    keyword arguments of every dump / load call (also through msgpack.Packer / Unpacker objects), delegates everything else"""
+    def __init__(self, real, log, dump_result, load_result):
+        self._real, self._log, self._dump_result, self._load_result = real, log, dump_result, load_result
+
+    def __getattr__(self, name):
+        return getattr(self._real, name)
+
+    def dumps(self, obj, *a, **kw):
+        self._log.append(("dump", kw))
+        return self._dump_result
+
+    def packb(self, obj, *a, **kw):
+        self._log.append(("dump", kw))
+        return self._dump_result
+
+    def loads(self, data, *a, **kw):
+        self._log.append(("load", kw))
+        return self._load_result[0]
+
+    def unpackb(self, data, *a, **kw):
+        self._log.append(("load", kw))
+        return self._load_result[0]
+
+    def Packer(self, *a, **kw):
+        stub = self
+
+        class P(object):
+            def pack(self, obj):
+                stub._log.append(("dump", kw))
+                return stub._dump_result
+        return P()
+
+
+def _probe_read(tree):
+    """second reader: the module of the tree under test is imported and every dumps / dumpsCall / loads / loadsCall is
+    run once with the third-party library replaced by a recording stub and recreate_classes /
+    convert_obj_into_marshallable replaced by recorders — which hooks reach the library call and which Pyro5 layer is
+    applied to the positional arguments, the keyword arguments and the result is then a fact about what the code does,
+    independent of helper methods, local names or statement order.  The msgpack ExtType codes and byte codecs are read
+    by running default() / ext_hook() on sample values."""
+    import datetime, struct
+    mod = tree_module(tree, "Pyro5.serializers")
+    libs = ("serpent", "marshal", "json", "msgpack")
+    real = {n: getattr(mod, n) for n in libs}
+    need(all(real[n] is not None for n in libs), "a serializer library is not available")
+    table, ids = {}, {}
+    log = []
+    load_result = [None]
+    try:
+        for n in libs:
+            setattr(mod, n, _LibStub(real[n], log, "{}" if n == "json" else b"probe", load_result))
+        for sname, cname in CLASSES:
+            cls = getattr(mod, cname, None)
+            need(isinstance(cls, type), "class %s not found" % cname)
+            need(isinstance(cls.serializer_id, int), cname + ".serializer_id is not an int")
+            ids[sname] = cls.serializer_id
+            inst = cls()
+            touched = {"recreate": [], "convert": []}
+            inst.recreate_classes = lambda x, t=touched: (t["recreate"].append(repr(x)), x)[1]
+            if hasattr(inst, "convert_obj_into_marshallable"):
+                inst.convert_obj_into_marshallable = lambda x, t=touched: (t["convert"].append(repr(x)), x)[1]
+
+            def run(fn):
+                del log[:]
+                touched["recreate"], touched["convert"] = [], []
+                fn()
+                return list(log), list(touched["recreate"]), list(touched["convert"])
+
+            def passes(calls, kind, kwname):
+                hook = getattr(inst, kwname, None)
+                return any(k == kind and kwname in kw and kw[kwname] == hook and hook is not None for k, kw in calls)
+            calls_dc, _, conv_dc = run(lambda: inst.dumpsCall("obj", "meth", ("A-MARK",), {"kw": "B-MARK"}))
+            calls_d, _, conv_d = run(lambda: inst.dumps("C-MARK"))
+            va, kw = ["A-MARK"], {"kw": "B-MARK"}
+            load_result[0] = {"object": "obj", "method": "meth", "params": va, "kwargs": kw} if sname == "json" else ("obj", "meth", va, kw)
+            calls_lc, rec_lc, _ = run(lambda: inst.loadsCall(b"__class__ probe"))
+            load_result[0] = ["C-MARK"]
+            calls_l, rec_l, _ = run(lambda: inst.loads(b"__class__ probe"))
+            need(any(k == "dump" for k, _ in calls_dc) and any(k == "dump" for k, _ in calls_d)
+                 and any(k == "load" for k, _ in calls_lc) and any(k == "load" for k, _ in calls_l),
+                 "%s: a method did not reach the %s library through a recognised entry point" % (cname, sname))
+            for p, mark, cd, cl, conv, rec in (("arg", "A-MARK", calls_dc, calls_lc, conv_dc, rec_lc),
+                                               ("kwarg", "B-MARK", calls_dc, calls_lc, conv_dc, rec_lc),
+                                               ("result", "C-MARK", calls_d, calls_l, conv_d, rec_l)):
+                table[(sname, p)] = (passes(cd, "dump", "default"), any(mark in r for r in conv),
+                                     passes(cl, "load", "object_hook"), passes(cl, "load", "ext_hook"), any(mark in r for r in rec))
+    finally:
+        for n in libs:
+            setattr(mod, n, real[n])
+    # ExtType codes and codecs, by running default() / ext_hook() of a fresh serializer on sample values
+    mp = mod.MsgpackSerializer()
+    D, d = datetime.datetime, datetime.date
+    samples = {"complex": [1 + 2j, complex(-0.0, float("inf")), complex(-2.5, -0.0)],
+               "long": [2 ** 70, -2 ** 70, 2 ** 64, -2 ** 63 - 1],
+               "datetime": [D(1969, 12, 31, 23, 59, 58, 500000), D(2020, 2, 29, 12, 0, 0), D(2100, 12, 31, 23, 59, 59, 999999), D(1902, 1, 1, 0, 0, 0, 7)],
+               "date": [d(1, 1, 1), d(2020, 2, 29), d(9999, 12, 31)]}
+    known_enc = {"complex": lambda x: struct.pack("dd", x.real, x.imag), "long": lambda x: str(x).encode("ascii"),
+                 "datetime": lambda x: struct.pack("d", x.timestamp()), "date": lambda x: struct.pack("l", x.toordinal())}
+    same = lambda a, b: type(a) is type(b) and (struct.pack("dd", a.real, a.imag) == struct.pack("dd", b.real, b.imag) if type(a) is complex else a == b)
+    ext, hook, known, shapes = {}, {}, {}, {}
+    for k in SHORTS:
+        outs = []
+        for x in samples[k]:
+            try:
+                e = mp.default(x)
+            except Exception as exc:
+                raise GenError("default(%r) raises %s" % (x, type(exc).__name__))
+            need(type(e).__name__ == "ExtType" and isinstance(e.code, int) and 0 <= e.code < 128, "default(%r) is not an ExtType" % (x,))
+            outs.append(e)
+        need(len({e.code for e in outs}) == 1, "default() uses several ExtType codes for %s values" % k)
+        ext[k] = outs[0].code
+
+        def decodes(code, datas):
+            try:
+                return all(same(mp.ext_hook(code, bytes(b)), x) for b, x in zip(datas, samples[k]))
+            except Exception:
+                return False
+        own = [bytes(e.data) for e in outs]
+        cands = [c for c in [ext[k]] + [c for c in range(128) if c != ext[k]] if decodes(c, own)]
+        hook[k] = cands[0] if cands else 255
+        kn = [known_enc[k](x) for x in samples[k]]
+        known[k] = own == kn and decodes(hook[k], kn)
+        shapes[k] = "default(%r).data = %s (validated codec gives %s)" % (samples[k][0], own[0].hex(), kn[0].hex())
+    return {"table": table, "ids": ids, "ext": ext, "hook": hook, "known": known, "shapes": shapes}
+
+
+@generator("GenSerializers", "Pyro5/serializers.py")
+def gen_serializers(tree):
+    errors_seen = {}
+    r = None
+    for mode, reader in (("probed", _probe_read), ("ast", _ast_read)):
+        try:
+            r = reader(tree)
+            break
+        except GenError as x:
+            errors_seen[mode] = str(x)
+        except Exception as x:
+            errors_seen[mode] = "%s: %s" % (type(x).__name__, x)
+    if r is None:
+        raise GenError("; ".join("%s reader: %s" % kv for kv in errors_seen.items()))
+    table, ids = r["table"], r["ids"]
     out = HEADER % "Pyro5/serializers.py"
     out += "(* per (serializer, path): (default= passed to the dump call, convert_obj_into_marshallable applied,\n"
     out += "   object_hook= passed to the load call, ext_hook= passed to the load call, recreate_classes applied) *)\n"
-    for (sname, p), t in table.items():
-        out += "Definition hk_%s_%s : bool * bool * bool * bool * bool := (%s).\n" % (sname, p, ", ".join(cbool(x) for x in t))
+    for sname, _ in CLASSES:
+        for p in ("arg", "kwarg", "result"):
+            out += "Definition hk_%s_%s : bool * bool * bool * bool * bool := (%s).\n" % (sname, p, ", ".join(cbool(x) for x in table[(sname, p)]))
     out += "(* serializer ids *)\n"
     for sname, _ in CLASSES:
         out += "Definition id_%s : N := %s.\n" % (sname, cN(ids[sname]))
     out += "(* msgpack ExtType codes written by default() *)\n"
-    for tname, short in want_d.items():
-        out += "Definition ext_%s : N := %s.\n" % (short, cN(dcodes[tname]))
+    for short in SHORTS:
+        out += "Definition ext_%s : N := %s.\n" % (short, cN(r["ext"][short]))
     out += "(* ... and the codes ext_hook() decodes with the matching constructor *)\n"
-    for code, ctor in sorted(hcodes.items()):
-        out += "Definition hook_%s : N := %s.\n" % (want_h[ctor], cN(code))
-    out += "(* the byte codec of every ExtType payload, as source text, and whether it is the codec the model's assumption\n"
+    for short in SHORTS:
+        out += "Definition hook_%s : N := %s.\n" % (short, cN(r["hook"][short]))
+    out += "(* the byte codec of every ExtType payload, and whether it is the codec the model's assumption\n"
     out += "   `ext_hook inverts default` was validated for *)\n"
-    enc = {want_d[k]: v for k, v in dshapes.items()}
-    dec = {want_h[hcodes[c]]: v for c, v in hshapes.items()}
-    flags = []
-    for short in ("complex", "long", "datetime", "date"):
-        ok = enc.get(short) == KNOWN_ENCODERS[short] and dec.get(short) == KNOWN_DECODERS[short]
-        clean = lambda t: str(t).replace("(*", "( *").replace("*)", "* )").replace("\n", " ")
-        out += "(* %s: default() sends %s ; ext_hook() does %s *)\n" % (short, clean(enc.get(short)), clean(dec.get(short)))
-        out += "Definition codec_%s_known : bool := %s.\n" % (short, cbool(ok))
-        flags.append("codec_%s_known" % short)
-    out += "Definition ext_codecs_known : bool := %s.\n" % " && ".join(flags)
-    return out, {"codecs": {"encode": enc, "decode": dec}, "table": {"%s/%s" % k: v for k, v in table.items()}, "ids": ids,
-                 "ext_default": {want_d[k]: v for k, v in dcodes.items()},
-                 "ext_hook": {want_h[v]: k for k, v in hcodes.items()}, "ast_sha": shas}
+    clean = lambda t: str(t).replace("(*", "( *").replace("*)", "* )").replace("\n", " ")
+    for short in SHORTS:
+        out += "(* %s: %s *)\n" % (short, clean(r["shapes"][short]))
+        out += "Definition codec_%s_known : bool := %s.\n" % (short, cbool(bool(r["known"][short])))
+    out += "Definition ext_codecs_known : bool := %s.\n" % " && ".join("codec_%s_known" % k for k in SHORTS)
+    return out, {"mode": mode, "reader_errors": errors_seen, "codecs": r["shapes"],
+                 "table": {"%s/%s" % k: v for k, v in table.items()}, "ids": ids,
+                 "ext_default": r["ext"], "ext_hook": r["hook"], "ast_sha": r.get("ast_sha") or ast_shas(tree)}
